@@ -62,6 +62,28 @@ class AMask:
         return f"mask({self.of.side} {self.kind} {self.detail if self.detail is not None else ''})"
 
 
+class LabelKeys:
+    """A label or list of labels wrapped into a numpy array, possibly cast to some dtype."""
+
+    def __init__(self, value, casts=()):
+        self.value = value
+        self.casts = tuple(casts)
+
+    def plain(self):
+        return self.value if not self.casts else self
+
+    def __eq__(self, o):
+        if isinstance(o, LabelKeys):
+            return self.value == o.value and self.casts == o.casts
+        return not self.casts and self.value == o
+
+    def __hash__(self):
+        return hash(("LabelKeys", repr(self.value), self.casts))
+
+    def __repr__(self):
+        return f"labels({self.value!r}{' cast to ' + '/'.join(self.casts) if self.casts else ''})"
+
+
 class EmptyTest:
     def __init__(self, arr: AArr, negate: bool):
         self.arr = arr
@@ -90,6 +112,8 @@ class ArrInterp(ResultInterp):
 
     # -- attribute / method access ------------------------------------------------------
     def get_attr(self, base, attr, node):
+        if isinstance(base, LabelKeys):
+            return _AMethod(base, attr)
         if isinstance(base, AArr):
             if attr in ("shape", "ndim", "size"):
                 return Sym(f"{base.side}.{attr}")
@@ -108,6 +132,15 @@ class ArrInterp(ResultInterp):
         return super().apply(fv, args, kwargs, node)
 
     def arr_method(self, a, name, args, kwargs, node):
+        if isinstance(a, LabelKeys):
+            if name == "astype":
+                dt = args[0] if args else None
+                tag = dt.name if isinstance(dt, Sym) else repr(dt)
+                wide = self._dtype(dt) in ("u64", "i64", "f64")
+                return a if wide else LabelKeys(a.value, a.casts + (tag,))
+            if name in ("copy", "ravel", "flatten", "tolist"):
+                return a
+            return Unknown(f"labels.{name}")
         if isinstance(a, AMask):
             if name == "astype":
                 dt = self._dtype(args[0]) if args else None
@@ -172,10 +205,12 @@ class ArrInterp(ResultInterp):
                 return AMask(l, "nonzero")
             if r == 1 and k is ast.Lt:
                 return AMask(l, "zero")
+            if k is ast.Eq:
+                return AMask(l, "eq", r)
             return AMask(l, "other", f"{type(op).__name__} {r}")
         if isinstance(l, AArr):
             if isinstance(op, ast.Eq):
-                return AMask(l, "eq", r)
+                return AMask(l, "eq", r.plain() if isinstance(r, LabelKeys) else r)
             return AMask(l, "other", f"{type(op).__name__} {r!r}")
         if isinstance(l, Reduction) and isinstance(l.arr, AArr) and isinstance(r, (int, float)):
             k = type(op)
@@ -232,6 +267,8 @@ class ArrInterp(ResultInterp):
     def external_call(self, name, args, kwargs, node):
         if name == "numpy.isin" and args and isinstance(args[0], AArr):
             key = args[1]
+            if isinstance(key, LabelKeys):
+                key = key.plain()
             inv = kwargs.get("invert", False)
             return AMask(args[0], "notin" if inv else "isin", key)
         if name in ("numpy.count_nonzero",) and args and isinstance(args[0], AArr):
@@ -244,6 +281,14 @@ class ArrInterp(ResultInterp):
             return self.arr_method(args[0], "copy", [], {}, node)
         if name in ("numpy.asarray", "numpy.atleast_1d", "numpy.ascontiguousarray") and args and isinstance(args[0], AArr):
             return args[0]
+        if name in ("numpy.asarray", "numpy.atleast_1d", "numpy.array") and args and isinstance(args[0], (int, list, tuple, Sym, LabelKeys)) and not isinstance(args[0], bool):
+            base = args[0] if isinstance(args[0], LabelKeys) else LabelKeys(args[0])
+            dt = kwargs.get("dtype")
+            if dt is not None:
+                return self.arr_method(base, "astype", [dt], {}, node)
+            if name == "numpy.atleast_1d" and not isinstance(base.value, (list, tuple)):
+                return LabelKeys([base.value], base.casts)
+            return base
         if name == "numpy.where" and len(args) == 3 and isinstance(args[0], AMask):
             m = args[0]
             if m.kind == "nonzero" and args[1] == 1 and args[2] == 0:
